@@ -51,6 +51,25 @@ CLAIMS = {
          "pourFunds classifies issuer→outflow / receiver→inflow with the same amount; no accounting error is dropped. Holds for every DAG shape and delivery order, which six fixed scenarios cannot show.",
          "that the library walker enumerates all ancestors, the arithmetic (C05), the post-truncation IsRoot shortcut, cross-node merge (C02)",
          "edge-cut guard dominance with value binding, origin (may-flow) analysis through slices/φ/named results, return classification on go/ssa"),
+ "C09": ("DESIGN.md §3 C09",
+         "Static binding/pairing analysis of graph construction: every insertion uses the vertex's own hash as id; every edge runs from a vertex looked up by (or equal to) a declared parent hash to the vertex just inserted; a failed linking rolls the vertex back; "
+         "on the gossip path both declared parents must be found before the insertion (per-element decision over the constant-length range); a locally created vertex seals calcNewWeight of exactly the parents it references and NewVertex returns only signed values.",
+         "acyclicity (library), arithmetic of calcNewWeight, post-truncation graph, digest recomputation (C04)",
+         "access-path binding + origin analysis through ranged literals + edge-cut loop obligations on go/ssa"),
+ "C10": ("DESIGN.md §3 C10",
+         "Static guard-dominance table of the sealing rules on all entry points (local proposal, gossip, orphan replay, genesis, sync) with operands bound by access path, plus who-may-call closure facts showing that no other path inserts into the DAG.",
+         "deployment facts (which wallet is genesis), imports other than the three entry points",
+         "edge-cut guard dominance over comparison facts + who-may-call over resolved callees"),
+ "C13": ("DESIGN.md §3 C13",
+         "Static path obligations on the orphan path: the not-found branch parks the vertex on every path, mutates neither DAG nor index and reports ErrParentDoesNotExists exactly when parked; the buffer's append is behind its size and retry bounds with the counter incremented first; "
+         "the retry loop feeds the buffer's subscription into the normal admission function and never touches the DAG itself.",
+         "convergence over delivery permutations (schedule property), ticker timing, buffer ordering quality",
+         "path obligations + guard dominance on go/ssa"),
+ "C14": ("DESIGN.md §3 C14",
+         "Static reachability analysis of all-or-nothing sync: the loaded flag store is unreachable from each of the cancel sites, every failing step (index reservation, vertex insertion, edge insertion, no root, already loaded) leads to cancel before any exit, "
+         "the genesis address originates from a GetRoots() vertex's issuer.",
+         "equality of vertex sets, balances and follow-up behaviour with the peer; truncated or multi-tip sources; stream order",
+         "CFG reachability / must-reach-cancel obligations + origin analysis on go/ssa"),
 }
 
 NA = {
